@@ -320,3 +320,31 @@ Definition monitor16 (c : pcase) : bool :=
   forallb mon16_step (snd (run_case c)) &&
   match unmatched c with Some (s, o) => mon16_sent s o | None => true end.
 Definition bad_monitor16 (cs : list pcase) : list N := map p_id (filter (fun c => negb (monitor16 c)) cs).
+
+(* ---------- the initial advertisement, observed on the wire of a real peer.Run ---------- *)
+Record advcase := mk_adv { av_id : N; av_geo : geo; av_fast : bool; av_ext : bool; av_my : bm; av_obs : list msg }.
+
+Definition is_ext0 (m : msg) : bool := match m with Extended0 _ => true | _ => false end.
+Definition adv_obs (c : advcase) : list msg := filter (fun m => negb (is_ext0 m)) (av_obs c).
+
+Definition msgs_eqb (a b : list msg) : bool := list_eqb msg_eqb a b.
+Definition corr_adv (c : advcase) : bool :=
+  msgs_eqb (adv_obs c) (initial_adv (Some (av_geo c)) (av_fast c) (av_my c)) &&
+  (* the extended handshake comes first, exactly when the peer supports the extension protocol *)
+  match av_obs c with
+  | Extended0 _ :: r => av_ext c && forallb (fun m => negb (is_ext0 m)) r
+  | l => negb (av_ext c) && forallb (fun m => negb (is_ext0 m)) l
+  end.
+
+(* conformance, independently of the model: every message is well-formed for this torrent,
+   fast-extension messages only to peers that support it, and the whole says exactly what we have *)
+Definition mon_adv (c : advcase) : bool :=
+  let n := num_pieces (av_geo c) in
+  forallb (fun m => match m with HaveAll | HaveNone => av_fast c | _ => true end) (adv_obs c) &&
+  match adv_set n (adv_obs c) [] with
+  | Some s => list_eqb N.eqb s (bits (av_my c))
+  | None => false
+  end.
+
+Definition bad_corr_adv (cs : list advcase) : list N := map av_id (filter (fun c => negb (corr_adv c)) cs).
+Definition bad_monitor_adv (cs : list advcase) : list N := map av_id (filter (fun c => negb (mon_adv c)) cs).
